@@ -805,8 +805,8 @@ def fragment_as_python(source: str, fn_name: str, kind: str, start: str | None, 
         # `continue` and running off the end reach the `else` of the one-shot loop, `break` skips it
         outs = "".join(v + ", " for v in fr["outputs"])
         wrap = (lambda t: f"('next', {t})") if fr["flow"] else (lambda t: t)
-        mod = ast.parse(f"def _fragment({params}):\n    for _once in (0,):\n        pass\n    else:\n        return {wrap(f'({outs}False)')}\n"
-                        f"    return {wrap(f'({outs}True)')}\n")
+        mod = ast.parse(f"def _fragment({params}):\n    for _once in (0,):\n        pass\n    else:\n        return {wrap(f'({outs}False,)')}\n"
+                        f"    return {wrap(f'({outs}True,)')}\n")
         mod.body[0].body[0].body = stmts
     ast.fix_missing_locations(mod)
     ns = dict(globs)
